@@ -73,11 +73,14 @@ func fieldSig(n *refmodel.Node) string {
 }
 
 func body(r *ev.Run) {
-	r.Rule("seeded random histories with field extremes (int32 version corners and random, uint32 nonce/bits corners and random, timestamps over the whole uint32 epoch range, random 32-byte merkle roots and parents) incl. forks, orphans, late parents, reorganisations, duplicates; restarts (close + database.Init) at seeded points and at the end. After every submission: full-table comparison with independently computed hash/height/work/cumulative work/fields, immutability monitor (every column but header_state byte-identical, no row vanishes), round trip of the new header through Headers.GetHeaderByHash and GET /chain/header/{hash}, /chain/header/state/{hash}. distinct = distinct (version class, time class, nonce class, bits class, parent relation) cells of stored headers; non-trivial = all of them (each cell is a distinct field-corner combination).")
+	r.Rule("seeded random histories with field extremes (int32 version corners and random, uint32 nonce/bits corners and random, timestamps over the whole uint32 epoch range, random 32-byte merkle roots and parents) incl. forks, orphans, late parents, reorganisations, duplicates; half of the headers delivered as bytes of a `headers` message through the real wire decoder (as the sync engines receive them), half through Chains.Add directly; restarts (close + database.Init) at seeded points and at the end. After every submission: full-table comparison with independently computed hash/height/work/cumulative work/fields, immutability monitor (every column but header_state byte-identical, no row vanishes), round trip of the new header through Headers.GetHeaderByHash and GET /chain/header/{hash}, /chain/header/state/{hash}. distinct = distinct (version class, time class, nonce class, bits class, parent relation) cells of stored headers; non-trivial = all of them (each cell is a distinct field-corner combination).")
 	r.Assume("reference arithmetic in refmodel (cross-checked exhaustively by C19)", "SQLite only")
 	r.Require("restarts", 5)
 	r.Require("headers_stored", 500)
 	mb.ForbiddenHeaders()
+	// every second stored header is delivered the way a peer delivers it: as the bytes of a `headers` message decoded
+	// by the real wire codec (the frame is built by the harness, not by the encoder under test)
+	mb.ViaWire = func(h refmodel.Hdr) bool { return h.Nonce%2 == 0 }
 	st, err := rig.New(rig.Options{Dir: r.Scratch})
 	if err != nil {
 		r.Violate("harness|rig", err.Error(), "", nil)
@@ -95,7 +98,7 @@ func body(r *ev.Run) {
 				PUnknown:     []float64{0.02, 0.1}[rng.Intn(2)],
 				PLate:        []float64{0, 0.1}[rng.Intn(2)],
 				PFork:        []float64{0.1, 0.4}[rng.Intn(2)],
-				Classes:      []string{"MHL", "MHLZNTUX", "R", "MMHR"}[rng.Intn(4)],
+				Classes:      []string{"MHLC", "MHLZNTUXC", "RC", "MMHRC", "C"}[rng.Intn(5)],
 				FieldExtreme: true,
 			}
 			hist := gen.Random(rng, rig.Genesis(), o)
